@@ -1639,6 +1639,12 @@ func (s *limitSink) Write(p []byte) (int, error) {
 	return room, errSink
 }
 
+// flushWriter is a destination with a Flush method (as bufio.Writer has): flushing it succeeds.
+type flushWriter struct{ w io.Writer }
+
+func (f *flushWriter) Write(p []byte) (int, error) { return f.w.Write(p) }
+func (f *flushWriter) Flush() error                 { return nil }
+
 // safeWriteTo calls WriteTo and converts a panic into a result.
 func safeWriteTo(m *mail.Msg, w io.Writer) (n int64, err error, panicked string) {
 	defer func() {
@@ -1994,8 +2000,13 @@ func (rn *Runner) Run() {
 				rn.Infra = err
 				return
 			}
+			// the destination is a plain buffer or - every other scenario - a buffered writer of the caller (it has a Flush method)
 			var out bytes.Buffer
-			n, werr, pan := safeWriteTo(fb.Msg, &out)
+			var dst io.Writer = &out
+			if rn.T%2 == 0 {
+				dst = &flushWriter{w: &out}
+			}
+			n, werr, pan := safeWriteTo(fb.Msg, dst)
 			fb.Close()
 			r.Emit("out", "k", f.Slot, "op", "producer-"+f.When, "ok", false, "err", werr != nil, "panic", pan != "",
 				"n", n, "accepted", out.Len(), "len", len(first), "id", 0, "faulted", true, "text", clipErr(werr, pan))
